@@ -56,6 +56,7 @@ type Clause struct {
 	Tags    []string
 	Text    string
 	Binders []string
+	Exists  bool // binders are existential
 	Expr    ast.Expr
 	Lit     *ast.FuncLit
 	Info    *types.Info
@@ -280,6 +281,7 @@ func (e *Engine) resolveHeader(ct *Contract) error {
 
 var (
 	reLabel  = regexp.MustCompile(`^([A-Za-z_][A-Za-z0-9_.]*):\s+`)
+	reExists = regexp.MustCompile(`^exists\s+([A-Za-z_][A-Za-z0-9_]*(?:\s*,\s*[A-Za-z_][A-Za-z0-9_]*)*)\s*::\s*`)
 	reForall = regexp.MustCompile(`^forall\s+([A-Za-z_][A-Za-z0-9_]*(?:\s*,\s*[A-Za-z_][A-Za-z0-9_]*)*)\s*::\s*`)
 )
 
@@ -356,13 +358,19 @@ func splitTop(s, sep string) (string, string, bool) {
 func (e *Engine) parseClause(ct *Contract, rc rawClause, pos token.Pos, withResults bool, idx int) (*Clause, error) {
 	cl := &Clause{Kind: rc.kind, Tags: splitTags(rc.tags), Text: rc.text}
 	body := rc.text
-	if m := reLabel.FindStringSubmatch(body); m != nil && !strings.HasPrefix(body, "forall") {
+	if m := reLabel.FindStringSubmatch(body); m != nil && !strings.HasPrefix(body, "forall") && !strings.HasPrefix(body, "exists") {
 		cl.Label = m[1]
 		body = body[len(m[0]):]
 	} else {
 		cl.Label = fmt.Sprintf("%s%d", rc.kind, idx)
 	}
 	if m := reForall.FindStringSubmatch(body); m != nil {
+		for _, b := range strings.Split(m[1], ",") {
+			cl.Binders = append(cl.Binders, strings.TrimSpace(b))
+		}
+		body = body[len(m[0]):]
+	} else if m := reExists.FindStringSubmatch(body); m != nil {
+		cl.Exists = true
 		for _, b := range strings.Split(m[1], ",") {
 			cl.Binders = append(cl.Binders, strings.TrimSpace(b))
 		}
